@@ -21,6 +21,7 @@ RULE = (
     "[exhaustive (n,k) pairs], or k>=2 and index neither first nor last [sampled], or a kernel case with n>=4. "
     "distinct = distinct (kind,n,k,index/budget)."
     ' Also: a call interrupted (KeyboardInterrupt) at every one of its lines in turn, each time on a private copy of the module, followed by a re-check of the enumeration; kernel generators in half the cases repeat or extremise words of their stream.'
+    ' Sampled indices are handed over as int, int64, uint64, int32 or intp; block runs around the largest representable index for n with C(n,k) near 2**31, 2**32, 2**53, 2**63, 2**64.'
 )
 ASSUMPTIONS = [
     "itertools.combinations and math.comb are the reference",
@@ -46,6 +47,22 @@ def exhaustive(tier):
     # runs of consecutive block starts C(m,k) (and their neighbours) at sizes far beyond a scorer's: 2**14 .. 2**21 items
     for k, n in [(2, 70001), (3, 20000), (3, 300000), (4, 20000), (4, 70001)] + ([(3, 2**20 + 7), (3, 2**21 - 3), (4, 300000), (2, 2**21), (4, 2**20 + 7), (3, 600011)] if tier != "quick" else []):
         yield {"kind": "blocks", "n": n, "k": k, "m0": n - 47, "count": 40}
+    # index ranges that cross 2**31, 2**32, 2**53, 2**63, 2**64 (C(n,k) just below, inside and above), with numpy integer indices:
+    # the low blocks (indices 0..) and the blocks around the largest representable index
+    for k, n, itype in [(4, 121977, "int64"), (4, 121978, "int64"), (4, 133000, "int64"), (4, 145057, "int64"), (4, 121978, "uint64"), (3, 2345, "int32"), (3, 2346, "int32"), (2, 65537, "int32"), (2, 92683, "uint64"), (3, 378000, "int64"), (4, 21000, "uint64")] + ([(3, 3810779, "int64"), (4, 145056, "int64"), (2, 2**21, "int64")] if tier != "quick" else []):
+        total = math.comb(n, k)
+        lim = {"int64": 2**63 - 1, "uint64": 2**64 - 1, "int32": 2**31 - 1}[itype]
+        # the largest m with C(m,k) within the type's range and within the index range
+        m_hi = k
+        lo_, hi_ = k, n
+        while lo_ <= hi_:
+            mid = (lo_ + hi_) // 2
+            if math.comb(mid, k) <= min(lim, total - 1):
+                m_hi, lo_ = mid, mid + 1
+            else:
+                hi_ = mid - 1
+        yield {"kind": "blocks", "n": n, "k": k, "m0": k, "count": 6, "itype": itype}
+        yield {"kind": "blocks", "n": n, "k": k, "m0": max(k, m_hi - 5), "count": 6, "itype": itype}
     # a call interrupted (Ctrl-C, a timeout signal) at each of its lines in turn, in a process that then carries on
     for n_, k_, i_ in [(30, 3, 1234), (9, 4, 70)] + ([(200, 3, 100000), (40, 2, 500), (25, 4, 9000)] if tier != "quick" else []):
         yield {"kind": "interrupted", "n": n_, "k": k_, "i": i_}
@@ -75,7 +92,8 @@ def _sampled(draw):
         i = min(total - 1, max(0, math.comb(m, k) + draw(st.integers(-2, 2))))
     else:
         i = draw(st.integers(0, total - 1))
-    return {"kind": "one", "n": n, "k": k, "i": i}
+    # the index as the scoring code hands it over (numpy integer scalars out of rng.choice) or as a Python int
+    return {"kind": "one", "n": n, "k": k, "i": i, "itype": draw(st.sampled_from(["int", "int", "int64", "int64", "uint64", "int32", "intp"]))}
 
 
 @st.composite
@@ -127,6 +145,17 @@ def _kernel_many(draw):
 def strategy(tier):
     _MAX_EXP[0] = 19 if tier == "quick" else 21
     return st.one_of(_sampled(), _sampled(), _sampled(), _kernel(), _kernel_subset(), _kernel_scripted(), _scorer_subset_case(), _kernel_many())
+
+
+def _as_index(i, itype):
+    """the index in the requested integer representation (when it fits), else as a Python int"""
+    import numpy as np
+
+    t = {"int64": np.int64, "uint64": np.uint64, "int32": np.int32, "intp": np.intp}.get(itype)
+    if t is None:
+        return i
+    info = np.iinfo(t)
+    return t(i) if info.min <= i <= info.max else i
 
 
 def _stutter(case):
@@ -383,13 +412,13 @@ def check_case(case):
     if kind == "one":
         n, k, i = case["n"], case["k"], case["i"]
         total = math.comb(n, k)
-        t = tuple(int(x) for x in unrank(i, n, k))
+        t = tuple(int(x) for x in unrank(_as_index(i, case.get("itype")), n, k))
         require(len(t) == k, "unrank.length", lambda: "n=%d k=%d i=%d -> %r" % (n, k, i, t))
         require(all(0 <= x < n for x in t), "unrank.range", lambda: "n=%d k=%d i=%d -> %r" % (n, k, i, t))
         require(all(a > b for a, b in zip(t, t[1:])), "unrank.descending", lambda: "n=%d k=%d i=%d -> %r" % (n, k, i, t))
         require(_rank(t) == i, "unrank.rank_roundtrip", lambda: "n=%d k=%d i=%d -> %r has rank %d" % (n, k, i, t, _rank(t)))
         if i + 1 < total:
-            t2 = tuple(int(x) for x in unrank(i + 1, n, k))
+            t2 = tuple(int(x) for x in unrank(_as_index(i + 1, case.get("itype")), n, k))
             require(t2 == _successor(t, n), "unrank.successor", lambda: "n=%d k=%d: unrank(%d)=%r, unrank(%d)=%r" % (n, k, i, t, i + 1, t2))
         return {"nontrivial": k >= 2 and 0 < i < total - 1, "labels": ["one.k=%d" % k, "first" if i == 0 else "last" if i == total - 1 else "interior"]}
     if kind == "interrupted":
@@ -421,7 +450,7 @@ def check_case(case):
         for m in range(case["m0"], case["m0"] + case["count"]):
             for delta in (-1, 0, 1):
                 i = math.comb(m, k) + delta
-                t = tuple(int(x) for x in unrank(i, n, k))
+                t = tuple(int(x) for x in unrank(_as_index(i, case.get("itype")), n, k))
                 require(len(t) == k and all(0 <= x < n for x in t) and all(a > b for a, b in zip(t, t[1:])), "unrank.blocks.descending_in_range", lambda: "n=%d k=%d i=C(%d,%d)%+d -> %r" % (n, k, m, k, delta, t))
                 require(_rank(t) == i, "unrank.blocks.rank_roundtrip", lambda: "n=%d k=%d i=C(%d,%d)%+d=%d -> %r, which has rank %d" % (n, k, m, k, delta, i, t, _rank(t)))
         return {"nontrivial": True, "labels": ["blocks.k=%d" % k, "n>=2^%d" % (n.bit_length() - 1)]}
